@@ -11,6 +11,9 @@ import MxModel.Generated.Tables
         one OCCURRENCE of a name; `f=` the scopes around it, innermost first, up to the first one with a symbol
         table: `c:<loop variables>` an inlined comprehension, `t:<names not global there>` a scope with a table
         -> `self` | `bare`
+    rsv <name> bound=x,y cells=.. refs=.. spaces=.. params=..
+        a global name read where only the parameters `bound` have values (static access to parametrised levels)
+        -> `exp=<member|builtin|unbound> mx=<member|builtin|unbound>`
     refval ty=<exact type> bases=<b1,b2> iface=0|1 valid=0|1 mod=0|1 io=0|1 fin=0|1
         -> `path` | `none` | `literal` | `module` | `io` | `pickle`   (ParentTranslator.ref_value)
 -/
@@ -66,6 +69,13 @@ def step (line : String) : String :=
       else none
     if shouldReplaceAt Generated.exportReplaceOrder Generated.exportDummyFor Generated.pythonBuiltins t fs n
     then "self" else "bare"
+  | "rsv" :: n :: rest =>
+    let t : SpaceNames := { cells := names (field "cells=" rest), refs := names (field "refs=" rest),
+                            spaces := names (field "spaces=" rest), params := names (field "params=" rest) }
+    let bound := names (field "bound=" rest)
+    "exp=" ++ showTarget (exportedResolveAt Generated.exportReplaceOrder Generated.exportDummyFor
+        Generated.exportStaticFallbackFor Generated.exportStaticFallbackUnless Generated.pythonBuiltins t bound n) ++
+      " mx=" ++ showTarget (mxResolveAt Generated.pythonBuiltins t bound n)
   | "refval" :: rest =>
     let v : PyVal := { ty := field "ty=" rest, bases := names (field "bases=" rest),
                        iface := field "iface=" rest = "1", valid := field "valid=" rest = "1",
